@@ -42,8 +42,13 @@ def histogram(line):
 
 
 def translate():
-    from translate import score_avx2
-    return score_avx2.run()
+    # GenAvx2.v (AVX2 lane tables, dispatcher table) and GenLane4.v (SSE2 / NEON interleaving
+    # paths and store offsets)
+    from translate import score_avx2, score_lane4
+    a, b = score_avx2.run(), score_lane4.run()
+    return dict(ok=a.get("ok", True) and b.get("ok", True),
+                notes=a.get("notes", []) + b.get("notes", []),
+                errors=a.get("errors", []) + b.get("errors", []))
 
 
 SPEC = dict(
@@ -53,7 +58,7 @@ SPEC = dict(
     module="LMScore.C01",
     harness_bin="score",
     ml_modules=["score_model"],
-    n={"quick": 1200, "thorough": 24000},
+    n={"quick": 1200, "thorough": 16000},
     search_n={"quick": 3000, "thorough": 20000},
     nontrivial=nontrivial,
     histogram=histogram,
